@@ -7,7 +7,8 @@ from .source import AnchorError, Unsupported, norm
 
 HERE = os.path.dirname(os.path.dirname(os.path.abspath(__file__)))
 KNOWN_FILE = os.path.join(HERE, 'known_findings.json')
-EVID_DIR = os.path.join(HERE, 'evidence')
+# PMV_EVIDENCE_DIR redirects evidence when the checks are tried on a deliberately broken tree (tools/seedtry.py)
+EVID_DIR = os.environ.get('PMV_EVIDENCE_DIR') or os.path.join(HERE, 'evidence')
 
 
 class AnalysisError(Exception):
